@@ -94,6 +94,12 @@ def operand_cells():
         'tuple-unpack-arity': 'def (a, b) := (1, 2, 3)\nprint(a)\n',
         'call-with-keyword-like-misuse': 'def fi(a: Int, b: Str) -> Int => a\nprint(fi("s", 1))\n',
         'none-method': 'def n: Base? := None\nprint(n.get())\n',
+        'global-reassigned-in-function': 'def total := 0\ndef addt(k: Int) -> Int =>\n    total := total + k\n    total\nprint(addt(1))\n',
+        'global-augmented-in-function': 'def total := 0\ndef addt(k: Int) -> Int =>\n    total += k\n    total\nprint(addt(1))\n',
+        'global-read-in-function': 'def total := 5\ndef addt(k: Int) -> Int => total + k\nprint(addt(1))\n',
+        'override-with-other-return-type': 'class Ov(v: Int): Base(v)\n    def get(self) -> Str => "s"\ndef takes(b: Base) -> Int => b.get() + 1\nprint(takes(Ov(1)))\n',
+        'override-with-other-parameter-type': 'class Pa\n    def put(self, a: Int) -> Int => a + 1\nclass Ov2: Pa\n    def put(self, a: Str) -> Int => 1\ndef takes(b: Pa) -> Int => b.put(1)\nprint(takes(Ov2()))\n',
+        'field-redeclared-with-other-type': 'class Fo(v: Int): Base(v)\n    def bx: Str := "s"\ndef takes(b: Base) -> Int => b.bx + 1\nprint(takes(Fo(1)))\n',
     }
     for k, v in extra.items():
         out.append((f'misc:{k}', f'misc:{k}', pre + v))
